@@ -22,8 +22,8 @@ RULE = ("case = generated design (all profiles, biased to shared nets / structs 
         "pass (default, simple, seeded variants, forced extension) x 6..30 cycles of inputs that hold and revisit "
         "values x faults (restart.reset, dup.eval, stop.at = examine the file after a seeded prefix); non-trivial = "
         ">=1 signal changed value at >=2 different cycles and >=1 net with >=2 top-level members; distinct = case digest")
-TIERS = {"quick": {"runs": 480, "budget_s": 100, "chunk": 4},
-         "thorough": {"runs": 40000, "budget_s": 1800, "chunk": 8}}
+TIERS = {"quick": {"runs": 1280, "budget_s": 100, "chunk": 4},
+         "thorough": {"runs": 250000, "budget_s": 1800, "chunk": 8}}
 REAL = ["VcdGenerationPass", "PrintTextWavePass", "PrepareSimPass.collect_ff_funcs", "Bits.to_vcd_str / bin"]
 STUB = ["in-memory file object bound to the pass module's open()", "time.asctime pinned", "our VCD reader",
         "dump-entry sampler (sys.setprofile)"]
